@@ -177,7 +177,19 @@ def check_iers(case):
     c = repo.mod("geodepy.constants")
     v = case["v"]
     ep = datetime.date(*case["epoch"])
-    tr = c.iers2trans(case["from"], case["to"], ep, *v)
+    form = case.get("form", 0)
+    if not form:
+        tr = c.iers2trans(case["from"], case["to"], ep, *v)
+    else:
+        # the same entry written with keywords, in an order of the writer's choosing (rates first, rotations first, shuffled, or
+        # the seven parameters by position and the rates by keyword)
+        import random
+        names = list(ALL14)
+        kw = dict(zip(names, v))
+        npos = 7 if form % 3 == 0 else 0
+        keys = names[npos:]
+        random.Random(int(form)).shuffle(keys)
+        tr = c.iers2trans(case["from"], case["to"], ep, *v[:npos], **{k: kw[k] for k in keys})
     if (tr.from_datum, tr.to_datum, tr.ref_epoch) != (case["from"], case["to"], ep):
         raise Fail("iers2trans does not pass labels / epoch through", expected=(case["from"], case["to"], ep),
                    observed=(tr.from_datum, tr.to_datum, tr.ref_epoch))
@@ -194,6 +206,7 @@ iers_cases = st.fixed_dictionaries({
     "v": st.lists(st.one_of(S.floats(-200.0, 200.0), st.sampled_from([0.0, -0.0, 0.1, -24.0, 0.06, 1e-4]),
                             st.integers(-2000, 2000).map(lambda i: i / 10.0)), min_size=14, max_size=14),
     "epoch": st.sampled_from([[2015, 1, 1], [2010, 1, 1], [2000, 1, 1], [1988, 1, 1], [1997, 1, 1]]),
+    "form": st.one_of(st.just(0), st.integers(1, 10 ** 6)),
     "from": st.sampled_from(["ITRF2020", "ITRF2014", "ITRFX"]), "to": st.sampled_from(["ITRF2008", "ITRF88", "ITRFY"])})
 
 
